@@ -125,10 +125,10 @@ CLAIMED = {
         technique="Coq model of the codec (pval, get_state, construct_val) with refuted-corruption theorems + schema/value correspondence",
         text=("coq/props/C04.v over an executable Gallina model of every *_get_state function and every _construct (PyVal/CodecDump/CodecLoad, reusing the get_tree model): "
               "C04_faithful_or_refuses_partial is a theorem on the C05 fragment (scalars, nested list/tuple/set, dict family, slices, names, operator getters; arbitrary sharing) under the decidable guard c04_ok; one refuted theorem (vm_compute witness) per "
-              "corruption class = open findings D08 (colliding keys), D09 (frozenset/deque payload), D10 (rank>=2 object arrays), D26 (property values), C04-F1, F2, F4 (scalar / defaultdict subclasses, surrogate pairs); "
+              "corruption class = open findings D08 (colliding keys), D09 (frozenset/deque payload), D10 (rank>=2 object arrays), D26 (property values), C04-F1, F4 (scalar subclasses, surrogate pairs); "
               "C04_dump_pure holds by type. Everything else in the guard (dict family, arrays, user classes, sharing) is correspondence-only: the model's normalised schema AND its predicted loaded value -- including the "
               "predicted corruption or exception class -- are compared with /repo on >= 340 generated values per run, and c04_ok => faithful-or-refuses is evaluated per case; dump purity by fingerprint before/after."),
-        note=("Trusted: harness/pval_emit.py (object -> pval term), absval/canon, numpy/scipy/json float codecs as opaque tokens, zipfile. D07 (bool keys), D25 (defaultdict keys) and C04-F3 (tuple subclasses) repaired in /repo."),
+        note=("Trusted: harness/pval_emit.py (object -> pval term), absval/canon, numpy/scipy/json float codecs as opaque tokens, zipfile. D07 (bool keys), D25 (defaultdict keys) C04-F2 (defaultdict subclasses) and C04-F3 (tuple subclasses) repaired in /repo."),
         ref="DESIGN.md section 4 C04"),
     "C05": dict(
         technique='Coq round-trip theorem at the real entry points (containers, dict family, arrays, sparse, dtype, masked, RNGs, partial; arbitrary sharing) + per-case vm_compute of the model round trip + implementation cycles',
